@@ -18,6 +18,9 @@ class PythonIdentifier(str):
         new_value = sanitize(value)
         if not skip_snake_case:
             new_value = snake_case(new_value)
+        else:
+            # Keep the casing, but delimiters can still not be part of an identifier
+            new_value = re.sub(rf"[{DELIMITERS}]", "_", new_value)
         new_value = fix_reserved_words(new_value)
 
         if not new_value.isidentifier() or value.startswith("_"):
